@@ -2,7 +2,7 @@
 From Coq Require Import ZArith NArith List Permutation.
 Import ListNotations.
 From Stam Require Import Base.Tac Model.Limit Model.Handles Spec.HandlesSpec Proofs.Limit Proofs.Handles Props.C08.
-From Stam Require Import Model.Offset Model.Store Model.StoreObs Model.DataValue Model.QuerySem Spec.QuerySpec Proofs.QuerySem.
+From Stam Require Import Model.Offset Model.Store Model.StoreObs Model.DataValue Model.QuerySem Spec.QuerySpec Proofs.QuerySem Proofs.QueryMachine.
 Check (C08_limit_is_slice : forall (X : Type) (bg en : Z) (l : list X), limit bg en l = slice_spec bg en l).
 Check (C08_union_spec : forall A B, ok A -> ok B ->
   arr (union A B) = (if srt A then sort (spec_union_list (arr A) (arr B)) else spec_union_list (arr A) (arr B))
@@ -31,12 +31,19 @@ Check (C08_sem_subquery : forall s e n rt cs lim o sq,
 Check (C08_sem_subquery_rows : forall s e n rt cs lim o sq it r,
   In (it :: r) (sem s e (Q n rt cs lim o (Some sq))) <->
   In it (level s e rt cs lim)
-  /\ (In r (sem s ((n, it) :: e) sq) \/ (r = [] /\ q_opt sq = true /\ sem s ((n, it) :: e) sq = []))).
+  /\ (In r (sem s (e ++ [(n, it)]) sq) \/ (r = [] /\ q_opt sq = true /\ sem s (e ++ [(n, it)]) sq = []))).
 Check (C08_sem_add : forall s a, exec_add s a (sem s [] (add_sub a)) = spec_add s a).
 Check (C08_sem_delete : forall s x sub, exec_delete s x sub (sem s [] sub) = spec_delete s x sub).
 Check (C08_route_resource : forall ops e tok r, res_by_id (run ops) tok = Some r ->
   level (run ops) e TAnn [CRes (RId tok) false] None = map IAnn (m_res_text (run ops) r)).
+Check (C08_machine_rows : forall s q, fine s [] q ->
+  forall fuel, work s [] q < fuel -> iterate s q fuel (mkm [] 0) [] = Some (rows s [] q)).
+Check (C08_machine_sem : forall s q, clean s [] q -> run_machine s q = Some (sem s [] q)).
+Check (C08_machine_sem_dec : forall s q, cleanb s [] q = true -> run_machine s q = Some (sem s [] q)).
 Print Assumptions C08_limit_is_slice.
+Print Assumptions C08_machine_rows.
+Print Assumptions C08_machine_sem.
+Print Assumptions C08_machine_sem_dec.
 Print Assumptions C08_route_resource.
 Print Assumptions C08_route_resource_metadata.
 Print Assumptions C08_route_dataset_metadata.
